@@ -251,7 +251,7 @@ cdef class cyQM_template(cyQMBase):
                 if ub > cppvartype_info[bias_type].max(cppvartype):
                     raise ValueError(f"upper_bound cannot be greater than {cppvartype_info[bias_type].max(cppvartype)}")
             
-            if lb > ub:
+            if not lb <= ub:  # also rejects NaN
                 raise ValueError("lower_bound must be less than or equal to upper_bound")
 
             if cppvartype == cppVartype.INTEGER and ceil(lb) > floor(ub):
